@@ -84,6 +84,12 @@ CHECKS["C05"] = dict(
     note="Rotations are exact multiples of 15 degrees applied to a configuration with seeded generic angles; quick tier samples 24 edges per configuration (6 for lens wrappers).",
     ref="5 C05")
 
+CHECKS["C06"] = dict(
+    technique="TLA+ spec Superpose.tla (member sequences, polarisation classes, multi-channel request layouts with label-wise normal form) model-checked by TLC; every state replayed on the real pipeline; solver-call multiset observed through a logging Mie subclass",
+    text="TLC enumerates all 126 uniform/layered member sequences of 1-6 spheres, 7 polarisation classes (unit, non-unit, two almost-unit, tiny, huge, negative) and all 16906 layouts of 2-3 labelled channels in which wavelength, polarisation, scaling, particle index and radius are each a scalar, a dictionary or a labelled array in every key order, and checks that the normal form (value per channel label) is independent of key order. Replay: collection field = sum of separately computed member fields (Mie on grids and points, MieLens) to 1e-12; field for polarisation (a,b) = (a Ex + b Ey)/|(a,b)| for sphere, layered sphere, two spheres and MieLens, and the stored polarisation is unit; every label slice of the multi-channel hologram equals the single-channel calculation (1e-13) and the multiset of (wavelength, polarisation, index, radius) solver calls equals the specification's.",
+    note="Quick tier samples 250 of the channel layouts (thorough: all). MieLens handles homogeneous spheres only, so layered members are replayed with Mie.",
+    ref="5 C06")
+
 NOT_APPLICABLE = []
 
 
